@@ -58,7 +58,7 @@ def run(tier, replay=None):
             pick = rng.sample(rich, 20000 if thorough else 900) + rng.sample(recs, 2000 if thorough else 100)
             # deeper / wider hierarchies than the enumeration reaches: sampled, judged by the same operators (AttrsEval.tla)
             deep = []
-            for n_cls, count in ((4, 6000 if thorough else 500), (5, 3000 if thorough else 0)):
+            for n_cls, count in ((4, 12000 if thorough else 2500), (5, 4000 if thorough else 0)):
                 if not count:
                     continue
                 cands = []
